@@ -5,6 +5,7 @@
 #include <common/ndjson.hpp>
 #include <tlx/algorithm/parallel_multiway_merge.hpp>
 #include <fstream>
+#include <limits>
 #include <map>
 #include <sys/wait.h>
 #include <mutex>
@@ -27,6 +28,7 @@ struct TElem {
     TElem& operator=(const TElem& o) { vsched::access(&o, false); key = o.key; src = o.src; pos = o.pos; note_write(); return *this; }
     void note_write() { vsched::access(this, true); if ((const void*)this >= g_tbeg && (const void*)this < g_tend) { WLOCK; g_writes[this].push_back(vsched::self()); } }
 };
+VF_DECOY_ORDER(TElem, key)
 struct TLess { bool operator()(const TElem& a, const TElem& b) const { vsched::access(&a, false); vsched::access(&b, false); return a.key < b.key; } };
 
 static void one(Out& out, const std::vector<std::vector<long long>>& keys, long long L, bool stable, int mwmsa, int threads, int oversampling, int mwma, int front, uint64_t seed, int strat) {
@@ -35,15 +37,18 @@ static void one(Out& out, const std::vector<std::vector<long long>>& keys, long 
     for (size_t i = 0; i < k; ++i) for (size_t p = 0; p < keys[i].size(); ++p) data[i].emplace_back(keys[i][p], (long long)i + 1, (long long)p + 1);
     using It = std::vector<TElem>::iterator;
     std::vector<std::pair<It, It>> seqs;
-    for (size_t i = 0; i < k; ++i) seqs.push_back({data[i].begin(), data[i].end()});
+    // fronts 3 / 4: the *_sentinels entry points (forced parallel / forced sequential): every sequence is followed by an element greater than all real ones
+    const bool sentinels = front >= 3;
+    if (sentinels) for (size_t i = 0; i < k; ++i) data[i].emplace_back(std::numeric_limits<long long>::max(), (long long)i + 1, -5);
+    for (size_t i = 0; i < k; ++i) seqs.push_back({data[i].begin(), data[i].end() - (sentinels ? 1 : 0)});
     std::vector<It> begin0; for (auto& s : seqs) begin0.push_back(s.first);
     std::vector<TElem> target(L + 2);
     g_tbeg = target.data(); g_tend = target.data() + target.size(); g_writes.clear();
     vsched::clear_watches(); vsched::watch(g_tbeg, g_tend);
     for (auto& d : data) if (!d.empty()) vsched::watch(d.data(), d.data() + d.size());
     tlx::parallel_multiway_merge_oversampling = oversampling;
-    tlx::parallel_multiway_merge_force_parallel = (front == 1);
-    tlx::parallel_multiway_merge_force_sequential = (front == 2);
+    tlx::parallel_multiway_merge_force_parallel = (front == 1 || front == 3);
+    tlx::parallel_multiway_merge_force_sequential = (front == 2 || front == 4);
     auto m = static_cast<tlx::MultiwayMergeAlgorithm>(mwma);
     auto sa = static_cast<tlx::MultiwayMergeSplittingAlgorithm>(mwmsa);
     long long nout = -1;
@@ -53,6 +58,8 @@ static void one(Out& out, const std::vector<std::vector<long long>>& keys, long 
         TLess cmp;
         if (front == 0) ret = stable ? tlx::parallel_multiway_merge_base<true>(seqs.begin(), seqs.end(), target.begin(), L, cmp, m, sa, threads)
                                      : tlx::parallel_multiway_merge_base<false>(seqs.begin(), seqs.end(), target.begin(), L, cmp, m, sa, threads);
+        else if (sentinels) ret = stable ? tlx::stable_parallel_multiway_merge_sentinels(seqs.begin(), seqs.end(), target.begin(), L, cmp, m, sa, threads)
+                                         : tlx::parallel_multiway_merge_sentinels(seqs.begin(), seqs.end(), target.begin(), L, cmp, m, sa, threads);
         else ret = stable ? tlx::stable_parallel_multiway_merge(seqs.begin(), seqs.end(), target.begin(), L, cmp, m, sa, threads)
                           : tlx::parallel_multiway_merge(seqs.begin(), seqs.end(), target.begin(), L, cmp, m, sa, threads);
         nout = ret - target.begin();
@@ -90,10 +97,10 @@ static void child(const std::string& line, const char* outpath) {
     static const int TH[] = {1, 2, 3, 4, 5, 7, 8, 16, 32};
     uint64_t x = seed * 2654435761u + 17;
     auto rnd = [&](int n) { x = x * 6364136223846793005ULL + 1442695040888963407ULL; return (int)((x >> 33) % n); };
-    for (int stable = 0; stable < 2; ++stable) for (int mwmsa = 0; mwmsa < 2; ++mwmsa) for (int rep = 0; rep < 3; ++rep) {
+    for (int stable = 0; stable < 2; ++stable) for (int mwmsa = 0; mwmsa < 2; ++mwmsa) for (int rep = 0; rep < 4; ++rep) {
         int threads = rep == 0 ? TH[rnd(4)] : TH[rnd(9)];
         static const int OS[] = {1, 2, 10};
-        int front = rnd(8) == 0 ? 2 : rnd(2);
+        int front = rep == 3 ? (rnd(4) == 0 ? 4 : 3) : (rnd(8) == 0 ? 2 : rnd(2));
         one(out, keys, L, stable, mwmsa, threads, OS[rnd(3)], rnd(4), front, x, rnd(3) == 0 ? vsched::RUNFIRST : vsched::RANDOM);
     }
     out.flush();
